@@ -13,6 +13,7 @@ ALL_CFGS = ["tc", "tc_safe", "sm", "sm_safe"]
 def base_corpus(tier, seed):
     defs = corpus.shape_corpus()
     defs += corpus.random_corpus(seed, 40 if tier == "quick" else 800)
+    defs += corpus.class_shape_corpus(tier, seed)
     return defs
 
 
